@@ -155,3 +155,46 @@ def shrink(script, still_fails, max_steps=200):
             else:
                 i += 1
     return ";".join(ops)
+
+
+def run_prog_property(ctx, prop_files, gen_case, classes, n_quick, n_thorough, rule, classify=None, variant="plain",
+                      exact=False, key_of=None, checker=None, note="", level="proof", extra_check=None, timeout=40):
+    """Generic driver: build, generate cases, run implementation + model, compare the ops of `classes`.
+    gen_case(rng, tier) -> (script, meta dict).  classify(script, meta, mism) -> signature or None."""
+    import os
+    prop_files = [f for f in prop_files if os.path.exists(os.path.join(vlib.COQ, f))]
+    vlib.build(ctx, prop_files, variants=(variant,))
+    n = n_quick if ctx.tier == "quick" else n_thorough
+    corpus = load_corpus(ctx.prop)
+    cases = [(s, {"corpus": True}) for s in corpus] + [gen_case(ctx.rng, ctx.tier) for _ in range(n)]
+    scripts = [c[0] for c in cases]
+    impl, mod = run_pair(ctx, scripts, variant, exact=exact, timeout=timeout)
+    nviol = 0
+    dist = {}
+    for (script, meta), a, m in zip(cases, impl, mod):
+        mism = [x for x in compare_case(script, a, m) if x["cls"] in classes or x["cls"] == "fault"]
+        if extra_check:
+            mism += extra_check(script, meta, a, m)
+        k = key_of(meta) if key_of else script
+        for dk in (meta.get("dist") or []):
+            dist[dk] = dist.get(dk, 0) + 1
+        ctx.count(k, nontrivial=not meta.get("trivial", False), sample={"script": script[:300], "impl": a[:200]})
+        if mism:
+            sig = classify(script, meta, mism) if classify else None
+            nviol += 1
+            if nviol <= 40:
+                ctx.violation("%s_case_%d.txt" % (ctx.prop.lower(), nviol), replay_text(script, variant, mism, exact),
+                              "%s (%s)" % (mism[0]["why"], mism[0]["op"][:80]), sig=sig)
+    ctx.extra["distribution"] = dist
+    ctx.extra["corpus_cases"] = len(corpus)
+    ctx.cov["rule"] = rule
+    checker = checker or ("make -C /verif/coq -f Makefile.coq %s; coqc -Q . JLS <each> (Print Assumptions)" % " ".join(f.replace(".v", ".vo") for f in prop_files))
+    return vlib.finish(ctx, level, checker, note=note or "correspondence: implementation answers vs extracted spec_of on generated programs")
+
+
+def load_corpus(prop):
+    import os
+    p = os.path.join(vlib.VERIF, "corpus", prop + ".txt")
+    if not os.path.exists(p):
+        return []
+    return [l.strip() for l in open(p) if l.strip() and not l.startswith("#")]
